@@ -45,6 +45,11 @@ int main()
             }
             case 'S': { auto h = QSharedPointer<S>::create(); ids[h.data()] = n; keep << h; p.appendSink(h); break; }
             case 'P': { auto h = PipelinePtr::create(); ids[h.data()] = n; keep << h; p.appendPipeline(h); break; }
+            case '1': p.appendAttrHandler(AttrHandlerPtr()); break;
+            case '2': p.appendFilter(FilterPtr()); break;
+            case '3': p.setFormatter(FormatterPtr()); break;
+            case '4': p.appendSink(SinkPtr()); break;
+            case '5': p.appendPipeline(PipelinePtr()); break;
             case 'a': p.clearAttrHandlers(); break;
             case 'f': p.clearFilters(); break;
             case 'm': p.clearFormatters(); break;
